@@ -32,11 +32,15 @@ package store
 //@   ensures[C16] err == nil && result0 >= 1 ==> hasUse(r, refspec.String(), tocDigest.String()) && r.refcounter[refspec.String()][tocDigest.String()] == result0
 //@   ensures[C16] err == nil && result0 <= 0 ==> !(r.refcounter != nil && refspec.String() in r.refcounter && tocDigest.String() in r.refcounter[refspec.String()])
 //@   ensures[C16] err == nil && result0 <= 0 && !(r.refcounter != nil && refspec.String() in r.refcounter) ==> !(r.resolveLayerCache != nil && refspec.String() in r.resolveLayerCache)
+// ... and a layer that is dropped while other layers of its image are still in use is no longer remembered as resolved:
+// a later lookup of its digest resolves it again instead of answering "not found" from the memo
+//@   ensures[C16] err == nil && result0 <= 0 ==> !(r.resolveLayerCache != nil && refspec.String() in r.resolveLayerCache && r.resolveLayerCache[refspec.String()] != nil && layerBlob(locked(r.layer[refspec.String()][tocDigest.String()])) in r.resolveLayerCache[refspec.String()])
 
 // cacheLayer / getCachedLayer: a layer is handed out only under the TOC digest it was verified with.
 //@ uf layerTOC(layer.Layer) string
+//@ uf layerBlob(layer.Layer) string
 //@ func interface fs/layer.Layer.Info
-//@   ensures result.TOCDigest == layerTOC(self)
+//@   ensures result.TOCDigest == layerTOC(self) && result.Digest == layerBlob(self)
 //@ func (r *LayerManager) cacheLayer
 //@   props C16
 //@   requires l != nil
